@@ -54,3 +54,37 @@ NORMALISERS: Dict[str, Callable[[str], Optional[str]]] = {
     "mirror_const_left_gs_gi": mirror_const_left_gs_gi,
     "label_after_last_branch": label_after_last_branch,
 }
+
+
+# ---------------------------------------------------------------------------------------------
+# predicates: a listed finding that has no semantics-preserving normaliser is matched by a predicate
+# over the *specific* failing claim, model and path
+# ---------------------------------------------------------------------------------------------
+
+_OC_APPID_READ = re.compile(r"^(txn|gtxn\s+\d+|gtxns)\s+(OnCompletion|ApplicationID)$")
+
+
+def nonappl_kind_dropped_by_oc_appid_check(finding: dict, src: str) -> bool:
+    """KF-C07-appid-oc: Pay/Axfer missing from a kind set, on a path that reads OnCompletion/ApplicationID."""
+    if not finding.get("obligation", "").endswith("transaction_types[nonappl]"):
+        return False
+    lines = src.splitlines()
+    path = finding.get("path_lines") or []
+    if not path:
+        return False
+    # every instruction of the blocks on the path: from each block's first line up to the next block end;
+    # cheap over-approximation: any OnCompletion/ApplicationID read in the program text that lies in a visited block
+    from vlib import tealsem as ts
+
+    p = ts.tokenize(src)
+    start_of = ts.block_start_of(p)
+    visited = set(path)
+    for ins in p.ins:
+        if p.ins[start_of[ins.idx]].line in visited and _OC_APPID_READ.match(" ".join([ins.op] + ins.args)):
+            return True
+    return False
+
+
+PREDICATES = {
+    "nonappl_kind_dropped_by_oc_appid_check": nonappl_kind_dropped_by_oc_appid_check,
+}
